@@ -248,32 +248,42 @@ impl<'de, 'a> Deserializer<'de> for ValDe<'a> {
     serde_core::forward_to_deserialize_any! { bool i8 i16 i32 i64 u8 u16 u32 u64 u128 f32 f64 char bytes byte_buf unit unit_struct
         newtype_struct seq tuple tuple_struct map struct enum identifier }
 }
+/// `pos` = number of keys handed out. It advances in `next_key_seed`, never in `next_value_seed`, so that it stays a CONCRETE
+/// number for CBMC whatever the code under test does with the values (a caller that skips a value would otherwise leave a
+/// symbolic position behind and its `while let Some(key)` loop would be unrolled to the unwind bound: 1400 s of symex).
 struct ScriptMap<'a> { ents: &'a [Ent<'a>], n: usize, pos: usize, g: &'a Ghost }
 impl<'de, 'a> MapAccess<'de> for ScriptMap<'a> {
     type Error = E;
     fn next_key_seed<K: DeserializeSeed<'de>>(&mut self, seed: K) -> Result<Option<K::Value>, E> {
         let g = self.g;
-        if g.want_value.get() != 0 {
-            // the previous member's value was never taken: a real format is now positioned on that value, not on a key;
-            // it reports a syntax error (it also keeps a caller that never consumes values from looping forever)
+        g.keys.set(g.keys.get() + 1);
+        let pending = g.want_value.get() != 0;
+        if self.pos >= self.n {
+            // concretely `Ok(None)` (no symbolic Ok/Err merge here): this is what ends the caller's loop for CBMC
+            if pending { g.bad.set(1); }
+            return Ok(None);
+        }
+        let e = &self.ents[self.pos];
+        self.pos += 1;
+        if pending {
+            // the previous member's value was never taken: a real format is now positioned on that value, not on a key,
+            // and reports a syntax error
             g.bad.set(1);
             return Err(E { kind: E_HARNESS, field: 255 });
         }
-        g.keys.set(g.keys.get() + 1);
-        if self.pos >= self.n { return Ok(None); }
         g.want_value.set(1);
-        let e = &self.ents[self.pos];
         match seed.deserialize(KeyDe { name: e.key, via: e.via }) { Ok(k) => Ok(Some(k)), Err(e) => Err(e) }
     }
     fn next_value_seed<V: DeserializeSeed<'de>>(&mut self, seed: V) -> Result<V::Value, E> {
         let g = self.g;
-        if g.want_value.get() != 1 { g.bad.set(1); } // value without key / second value for one key
-        g.want_value.set(0);
         g.vals.set(g.vals.get() + 1);
-        assert!(self.pos < self.n, "[model] scripted map: next_value past the end");
-        let e = &self.ents[self.pos];
-        self.pos += 1;
-        seed.deserialize(ValDe { e })
+        if g.want_value.get() != 1 || self.pos == 0 {
+            // value without a key / second value for one key
+            g.bad.set(1);
+            return Err(E { kind: E_HARNESS, field: 255 });
+        }
+        g.want_value.set(0);
+        seed.deserialize(ValDe { e: &self.ents[self.pos - 1] })
     }
 }
 struct TopDe<'a> { ents: &'a [Ent<'a>], n: usize, g: &'a Ghost }
@@ -284,7 +294,8 @@ impl<'de, 'a> Deserializer<'de> for TopDe<'a> {
     }
     fn deserialize_struct<V: Visitor<'de>>(self, name: &'static str, fields: &'static [&'static str], v: V) -> Result<V::Value, E> {
         self.g.struct_call.set(self.g.struct_call.get() + 1);
-        let mut ok = bytes_eq(name.as_bytes(), b"RegisteredClaims") && fields.len() == 7;
+        let _ = name; // irrelevant to JSON; its 16-byte comparison would only raise the unwind bound
+        let mut ok = fields.len() == 7;
         let mut f = 0;
         while f < 7 { if f < fields.len() { ok &= bytes_eq(fields[f].as_bytes(), REG[f].as_bytes()); } f += 1; }
         self.g.fields_ok.set(ok as u8);
@@ -493,7 +504,7 @@ fn script_case(n: usize) -> (bool, bool, bool, bool, [u8; 4]) {
         (dup_err_ok, "[C14] duplicate_field names a registered claim that occurs more than once"),
         (g.bad.get() == 0 && g.vals.get() <= g.keys.get(), "[C14] MapAccess protocol: exactly one next_value after every next_key (unknown members are consumed too), on every path"),
         (r.is_err() || (g.vals.get() as usize == n && g.keys.get() as usize == n + 1), "[C14] a successful deserialisation has consumed every member and asked for keys until the end"),
-        (g.struct_call.get() == 0 || g.fields_ok.get() == 1, "[C14] deserialize_struct is asked for RegisteredClaims with the seven registered names"),
+        (g.struct_call.get() == 0 || g.fields_ok.get() == 1, "[C14] deserialize_struct announces exactly the seven registered names"),
     );
     let out = (r.is_ok(), matches!(&r, Err(e) if e.kind == E_DUP), ill, dup_any, ks);
     core::mem::forget(r);
